@@ -48,7 +48,7 @@ LEVEL["technique"] += '; evaluated tee construction (heap reachability of the bu
 
 STREAMING = c01.PASS_THROUGH + c01.TRANSFORMING + [
     "builtins.all", "builtins.any", "builtins.sum", "builtins._min_max", "functools.reduce", "heapq._largest",
-    "heapq._KeyIter.from_iters", "itertools._GroupByState.step"]
+    "heapq._KeyIter.from_iters", "itertools._GroupByState.step", "asynctools.await_each", "asynctools.any_iter"]
 ACCUMULATORS = {
     "itertools.cycle": "documented: all items are stored for replay",
     "builtins.sorted": "builds the result list", "builtins.list": "builds the result", "builtins.tuple": "builds the result",
@@ -78,6 +78,10 @@ def run(ctx) -> None:
             ctx.ok("R20.1", short, f"documented accumulator: {ACCUMULATORS[short]}")
             continue
         r20_1(ctx, ctx.inlined(ctx.unit(short)))
+    # private generators a streaming tool iterates (a step split off into a helper): what they keep is kept by the tool
+    for h in _helper_generators(ctx, [s_ for s_ in _present(ctx, STREAMING) if s_ not in ACCUMULATORS]):
+        ctx.count("streaming_helpers")
+        r20_1(ctx, ctx.inlined(h))
     r20_2(ctx)
     r20_3(ctx)
     r20_5(ctx)
@@ -268,6 +272,12 @@ def _loops_with_pulls(ctx, u) -> List[Tuple[ast.AST, Node]]:
     """(loop ast, representative node) for loops whose body (transitively) pulls a user source."""
     cfg = cfg_of(u)
     pulls = pull_nodes(ctx, u)
+    # a plain ``for`` over a user's (synchronous) iterable takes stream items as well (await_each, the sync adapter)
+    for n in cfg.nodes:
+        if n.kind == "snext" and not n.tag and n not in pulls and isinstance(n.ast, ast.For):
+            v = ctx.vals.expr(u, n.info.get("iter"), n)
+            if any(a[0] in ("user", "iter", "siter") for a in v) and not _is_per_source_loop(ctx, u, n.ast):
+                pulls.append(n)
     out = []
     seen = set()
     for p in pulls:
@@ -275,7 +285,7 @@ def _loops_with_pulls(ctx, u) -> List[Tuple[ast.AST, Node]]:
             if k == "loop" and id(a) not in seen:
                 seen.add(id(a))
                 out.append((a, p))
-        if p.kind == "pull" and id(p.ast) not in seen:
+        if p.kind in ("pull", "snext") and id(p.ast) not in seen:
             seen.add(id(p.ast))
             out.append((p.ast, p))
     return out
@@ -445,7 +455,45 @@ def _window(ctx, u, cfg, name: Optional[str], grown: ast.AST, n: Node) -> Tuple[
                                                   for (k, a) in n.regions if k == "loop")
         return (ok, "peer buffers: bounded by the lead of the fastest over the slowest live child (R20.2)" if ok else
                 "tee buffers are written outside the broadcast loop")
+    if name is not None:
+        # a deque that is bounded when it is made: ``deque(init, K)`` / ``deque(init, maxlen=K)`` with a literal K
+        binds = [d.info.get("value") for d in cfg.nodes if d.kind == "store" and not d.tag and name in node_defs(d)]
+        def bounded(b) -> bool:
+            if not (isinstance(b, ast.Call) and norm(b.func).split(".")[-1] == "deque"):
+                return False
+            m = b.args[1] if len(b.args) == 2 else next((k.value for k in b.keywords if k.arg == "maxlen"), None)
+            return isinstance(m, ast.Constant) and isinstance(m.value, int) and not isinstance(m.value, bool) and 0 < m.value <= 16
+        if binds and all(bounded(b) for b in binds):
+            return True, "a deque created with a literal maxlen: the oldest item is dropped when a new one arrives"
     return False, "not a documented window"
+
+
+def _helper_generators(ctx, shorts) -> List:
+    """Private async generators of the library that a streaming unit calls (directly or through another such helper) and
+    that are not themselves in the unit table."""
+    known = {ctx.pkg.canonical(ctx.unit(s_)) for s_ in shorts} | set(WINDOW_TOOLS) | set(ACCUMULATORS) | set(STREAMING)
+    out, seen, work = [], set(), [ctx.unit(s_) for s_ in shorts]
+    depth = {id(u.node): 0 for u in work}
+    while work:
+        u = work.pop()
+        for call in own_nodes(u.node):
+            if not isinstance(call, ast.Call):
+                continue
+            try:
+                r = ctx.pkg.resolve_expr_global(u.module, call.func)
+            except Exception:  # noqa: BLE001
+                continue
+            t = ctx.pkg.lib_unit(r.qual) if r is not None and r.kind == "lib" else None
+            if t is None or t.kind != "asyncgen" or id(t.node) in seen or not t.node.name.startswith("_") or t.cls is not None:
+                continue
+            if ctx.pkg.canonical(t) in known or t.short in known:
+                continue
+            seen.add(id(t.node))
+            out.append(t)
+            if depth.get(id(u.node), 0) < 2:
+                depth[id(t.node)] = depth.get(id(u.node), 0) + 1
+                work.append(t)
+    return out
 
 
 def r20_2(ctx) -> None:
